@@ -2,6 +2,7 @@ import M3d.Basic
 import M3d.Model.Collide
 import M3d.Model.CollideXf
 import M3d.Model.CollideCone
+import M3d.Model.CollideQuery
 /-!
 Line-protocol handler for C07.  Core-only; runs the models of `M3d/Model/Collide.lean`
 * at `Rat` for the `…x` kinds (exact mode: dyadic inputs on which every Go float operation is exact),
@@ -29,6 +30,13 @@ Kinds (see notes/C07.md):
   tcirc2x xf2 center R ctr r          2-D TransformCollider(t, Circle).CircleCollision      (Rat, spec)
   (xf: T x y [z] | S s | O m… | J n xf…, the token syntax of C05)
   containx n (a b c)… o margin        ColliderContains(mesh collider, o, margin) + the parity of the count (Rat)
+  rect2x  G|A n (s0 s1)… lo hi        2-D mesh collider.RectCollision = some segment has a point in the closed
+                                      box (Rat, spec; G: + the faithful hierarchy in the order given)
+  tritrix a b c a' b' c'              Triangle.TriangleCollisions: a segment is reported? (Rat)
+  mtritrix G|A n (a b c)… q0 q1 q2    3-D mesh collider.TriangleCollisions(q): number of segments (Rat)
+  profballx n (s0 s1)… minZ maxZ c r  profileCollider.SphereCollision (Rat, spec)
+  msegx   G|A n (a b c)… s0 s1        3-D mesh collider.SegmentCollision (Rat)
+  mseg2x  G|A n (s0 s1)… q0 q1        2-D mesh collider.SegmentCollision (Rat)
 -/
 namespace M3d.Drv.C07
 open M3d M3d.Col
@@ -261,6 +269,35 @@ def hJoin (ws : List String) : Option String := do
 def containsDir2 : V2 Q :=
   ⟨(ratOfBits 0x3fe0b83b6b5b6586).getD 0, (ratOfBits 0x3fbadda91d7b7320).getD 0⟩
 
+/-- `Solid2D = model2d.NewColliderSolid(coll2d)`: in bounds and an odd number of crossings along the fixed direction -/
+def solid2Of (segs : List (V2 Q × V2 Q)) : V2 Q → Bool :=
+  let ray2 : V2 Q → V2 Q → List (Hit2 Q) := fun o2 d2 =>
+    segs.flatMap fun (s0, s1) => seg2Hits sqrtQ epsQ s0 s1 o2 d2
+  let lo : V2 Q := segs.foldl (fun m (a, b) => ⟨min m.x (min a.x b.x), min m.y (min a.y b.y)⟩)
+    (match segs with | (a, _) :: _ => a | [] => ⟨0, 0⟩)
+  let hi : V2 Q := segs.foldl (fun m (a, b) => ⟨max m.x (max a.x b.x), max m.y (max a.y b.y)⟩)
+    (match segs with | (a, _) :: _ => a | [] => ⟨0, 0⟩)
+  fun p =>
+    decide (lo.x ≤ p.x) && decide (p.x ≤ hi.x) && decide (lo.y ≤ p.y) && decide (p.y ≤ hi.y) &&
+      ((ray2 p containsDir2).length % 2 == 1)
+
+/-- `profballx`: `ProfileCollider(mesh2d, minZ, maxZ).SphereCollision(c, r)`: the square-root-free form `profBallSpec`
+(`M3d.C07.profile_ball_touches_iff`: the open ball meets the walls or a face of the extrusion), refused if the faithful
+model `profSphere` (with the square root) differs. -/
+def hProfBall (ws : List String) : Option String := do
+  let (n, ws) ← pNat ws
+  let (segs, ws) ← pSegs n ws
+  let (minZ, ws) ← pScalar parseRat ws
+  let (maxZ, ws) ← pScalar parseRat ws
+  let (c, ws) ← pV3 parseRat ws
+  let (r, ws) ← pScalar parseRat ws
+  let nondeg := segs.all fun (a, b) => (b.sub a).dot (b.sub a) != 0
+  if !ws.isEmpty || !nondeg || r < 0 || maxZ < minZ then none
+  let solid2 := solid2Of segs
+  let spec := profBallSpec (fun q qq => segs.any fun (a, b) => seg2BallSpec a b q qq) solid2 minZ maxZ c r
+  let model := profSphere sqrtQ (fun q rho => segs.any fun (a, b) => seg2Circle sqrtQ a b q rho) solid2 minZ maxZ c r
+  some (if spec == model then boolStr spec else s!"MODEL-NE-SPEC spec={boolStr spec} model={boolStr model}")
+
 def hProf (ws : List String) : Option String := do
   let (n, ws) ← pNat ws
   let (segs, ws) ← pSegs n ws
@@ -271,14 +308,7 @@ def hProf (ws : List String) : Option String := do
   if !ws.isEmpty then none
   let ray2 : V2 Q → V2 Q → List (Hit2 Q) := fun o2 d2 =>
     segs.flatMap fun (s0, s1) => seg2Hits sqrtQ epsQ s0 s1 o2 d2
-  -- Solid2D = NewColliderSolid(coll2d): in bounds and an odd number of crossings along the fixed direction
-  let lo : V2 Q := segs.foldl (fun m (a, b) => ⟨min m.x (min a.x b.x), min m.y (min a.y b.y)⟩)
-    (match segs with | (a, _) :: _ => a | [] => ⟨0, 0⟩)
-  let hi : V2 Q := segs.foldl (fun m (a, b) => ⟨max m.x (max a.x b.x), max m.y (max a.y b.y)⟩)
-    (match segs with | (a, _) :: _ => a | [] => ⟨0, 0⟩)
-  let solid2 : V2 Q → Bool := fun p =>
-    decide (lo.x ≤ p.x) && decide (p.x ≤ hi.x) && decide (lo.y ≤ p.y) && decide (p.y ≤ hi.y) &&
-      ((ray2 p containsDir2).length % 2 == 1)
+  let solid2 := solid2Of segs
   let c := profileCollider ray2 solid2 minZ maxZ
   let with_ := c.ray (o, d) true
   let without := c.ray (o, d) false
@@ -452,8 +482,108 @@ def hContain (ws : List String) : Option String := do
   let cnt := (j.ray (o, containsDir3) false).1
   some s!"{boolStr (colliderContains j.ray sphere containsDir3 o margin)} {cnt % 2}"
 
+/-! ### box and triangle queries (`M3d/Model/CollideQuery.lean`)
+
+`rect2x`: the answer printed is what the property demands — some segment of the mesh has a point in the closed box,
+`seg2RectSpec` (`M3d.C07.rect_touches_iff_segment2d_spec`) — and the line is refused (`MODEL-NE-SPEC`) if the
+faithful model of `Segment.RectCollision` on some segment (`seg2Rect`, `M3d.C07.rect_touches_iff_segment2d`), or —
+mode `G` — the faithful model of the hierarchy `GroupedSegmentsToCollider` builds in the order given, with the
+bounds test of `joinedMultiCollider.RectCollision` at every node (`meshRect2`, `M3d.C07.mesh_rect_touches_iff`),
+answers differently.  `tritrix` / `mtritrix`: `triTri` is the model of `Triangle.TriangleCollisions`
+(`M3d.C07.triangle_collisions_iff`: it reports a segment iff the triangles have more than one common point, and
+then the segment is their intersection); for a mesh the number of segments is the number of triangles that
+report one (`M3d.C07.mesh_triangle_collisions`), in mode `G` checked against the faithful hierarchy. -/
+
+def hRect2 (ws : List String) : Option String := do
+  let (mode, ws) ← match ws with | m :: ws => some (m, ws) | [] => none
+  let (n, ws) ← pNat ws
+  let (segs, ws) ← pSegs n ws
+  let (lo, ws) ← pV2 parseRat ws
+  let (hi, ws) ← pV2 parseRat ws
+  let nondeg := segs.all fun (a, b) => (b.sub a).dot (b.sub a) != 0
+  if !ws.isEmpty || !nondeg || !(lo.x < hi.x) || !(lo.y < hi.y) then none
+  let spec := segs.any fun (a, b) => seg2RectSpec a b lo hi
+  let leaves := segs.any fun (a, b) => seg2Rect sqrtQ epsQ a b lo hi
+  if spec != leaves then some s!"MODEL-NE-SPEC spec={boolStr spec} segments={boolStr leaves}"
+  else if mode == "G" then
+    match groupedTree (n + 1) segs with
+    | none => if n == 0 then some (boolStr spec) else none
+    | some t => some (verdict spec (meshRect2 sqrtQ epsQ t lo hi))
+  else if mode == "A" then some (boolStr spec)
+  else none
+
+def pTri3 : P Q (Tri3 Q) := fun ws => do
+  let (a, ws) ← pV3 parseRat ws
+  let (b, ws) ← pV3 parseRat ws
+  let (c, ws) ← pV3 parseRat ws
+  some ((a, b, c), ws)
+
+def hTriTri (ws : List String) : Option String := do
+  let (t, ws) ← pTri3 ws
+  let (t1, ws) ← pTri3 ws
+  if !ws.isEmpty then none
+  some (match triTri sqrtQ epsQ t t1 with | none => "0" | some _ => "1")
+
+def hMeshTriTri (ws : List String) : Option String := do
+  let (mode, ws) ← match ws with | m :: ws => some (m, ws) | [] => none
+  let (n, ws) ← pNat ws
+  let (tris, ws) ← pTris n ws
+  let (q, ws) ← pTri3 ws
+  if !ws.isEmpty then none
+  let spec := (tris.filter fun l => (triTri sqrtQ epsQ l q).isSome).length
+  if mode == "G" then
+    match groupedTree (n + 1) tris with
+    | none => if n == 0 then some (toString spec) else none
+    | some t =>
+      let model := (meshTriTri sqrtQ epsQ t q).length
+      some (if model == spec then toString spec else s!"MODEL-NE-SPEC spec={spec} model={model}")
+  else if mode == "A" then some (toString spec)
+  else none
+
+/-- `msegx`: 3-D mesh collider `.SegmentCollision(s0, s1)` = some triangle's `Triangle.SegmentCollision`
+(`M3d.C07.mesh_segment_touches_iff`, `segment_touches_iff_triangle`); mode `G` also runs the faithful hierarchy with
+the `rayCollisionWithBounds` test at every node. -/
+def hMeshSeg3 (ws : List String) : Option String := do
+  let (mode, ws) ← match ws with | m :: ws => some (m, ws) | [] => none
+  let (n, ws) ← pNat ws
+  let (tris, ws) ← pTris n ws
+  let (s0, ws) ← pV3 parseRat ws
+  let (s1, ws) ← pV3 parseRat ws
+  if !ws.isEmpty then none
+  let spec := tris.any fun (a, b, c) => triSegment sqrtQ epsQ a b c s0 s1
+  if mode == "G" then
+    match groupedTree (n + 1) tris with
+    | none => if n == 0 then some (boolStr spec) else none
+    | some t => some (verdict spec (meshSegment3 sqrtQ epsQ t s0 s1))
+  else if mode == "A" then some (boolStr spec)
+  else none
+
+/-- `mseg2x`: 2-D mesh collider `.SegmentCollision(q)` (`M3d.C07.mesh_segment_touches_iff_2d`,
+`segment_touches_iff_segment2d`) -/
+def hMeshSeg2 (ws : List String) : Option String := do
+  let (mode, ws) ← match ws with | m :: ws => some (m, ws) | [] => none
+  let (n, ws) ← pNat ws
+  let (segs, ws) ← pSegs n ws
+  let (q0, ws) ← pV2 parseRat ws
+  let (q1, ws) ← pV2 parseRat ws
+  let nondeg := segs.all fun (a, b) => (b.sub a).dot (b.sub a) != 0
+  if !ws.isEmpty || !nondeg || (q1.sub q0).dot (q1.sub q0) == 0 then none
+  let spec := segs.any fun (a, b) => seg2Segment sqrtQ epsQ a b q0 q1
+  if mode == "G" then
+    match groupedTree (n + 1) segs with
+    | none => if n == 0 then some (boolStr spec) else none
+    | some t => some (verdict spec (meshSegment2 sqrtQ epsQ t q0 q1))
+  else if mode == "A" then some (boolStr spec)
+  else none
+
 def handleAll (ws : List String) : Option String :=
   match ws with
+  | "profballx" :: rest => hProfBall rest
+  | "msegx" :: rest => hMeshSeg3 rest
+  | "mseg2x" :: rest => hMeshSeg2 rest
+  | "rect2x" :: rest => hRect2 rest
+  | "tritrix" :: rest => hTriTri rest
+  | "mtritrix" :: rest => hMeshTriTri rest
   | "obs3" :: rest => handleObs rest
   | "obs2" :: rest => handleObs rest
   | "rectx" :: rest => hRect parseRat showRat rest
